@@ -9,6 +9,7 @@ Require Import Cadence.Model.Writer.
 Require Import Cadence.Model.Stats.
 Require Import Cadence.Model.Sock.
 Require Import Cadence.Proofs.StatsProofs.
+Require Import Cadence.Proofs.SockProofs.
 From Coq Require Import Permutation.
 
 (* after any sequence of send attempts: bytes_sent = total size the socket accepted, packets_sent =
@@ -79,6 +80,33 @@ Qed.
 (* read through a wrapping queuing sink the figures are identical (stats() delegates) *)
 Theorem c14_queuing : forall s : stats, queuing_stats s = s.
 Proof. reflexivity. Qed.
+
+(* a whole scenario on an unbuffered socket sink - any script of emits and flushes while the listener
+   goes away and comes back ([sc_emits]: the emits with the listener's state at the time), behind
+   a queuing sink or not: the counters read at the end are the totals of the datagrams that reached
+   the wire and of the metrics that were refused, and every emit is in exactly one of the two *)
+Theorem c14_scenario_unbuffered : forall queued ops rs dg st,
+  sc_unbuffered queued ops = (rs, dg, st) ->
+  let lost := map fst (filter (fun x => negb (snd x)) (sc_emits true ops)) in
+  bytes_sent st = (fold_right N.add 0 (map (fun d => N.of_nat (length d)) dg) mod 2 ^ 64)%N /\
+  packets_sent st = (N.of_nat (length dg) mod 2 ^ 64)%N /\
+  bytes_dropped st = (fold_right N.add 0 (map (fun d => N.of_nat (length d)) lost) mod 2 ^ 64)%N /\
+  packets_dropped st = (N.of_nat (length lost) mod 2 ^ 64)%N /\
+  length dg + length lost = length (sc_emits true ops).
+Proof. exact sc_unbuffered_totals. Qed.
+
+(* ... on a buffered socket sink: the statistics the scenario reports are those of the underlying
+   sends made so far, each counted exactly once as sent or as dropped with its full size *)
+Theorem c14_scenario_buffered : forall co queued ops rs s n up,
+  sc_buf queued true (sink_init co []) 0 ops = (rs, s, n, up) ->
+  let st := buffered_stats (lg s) in
+  let l := map attempt_of_log (lg s) in
+  snd (sc_buffered co queued ops) = st /\
+  packets_sent st = (sent_count l mod 2 ^ 64)%N /\ bytes_sent st = (sent_bytes l mod 2 ^ 64)%N /\
+  packets_dropped st = (dropped_count l mod 2 ^ 64)%N /\ bytes_dropped st = (dropped_bytes l mod 2 ^ 64)%N /\
+  (sent_count l + dropped_count l = N.of_nat (length (lg s)))%N.
+Proof. exact sc_buffered_stats. Qed.
+
 
 (* non-vacuity *)
 Example c14_witness :
